@@ -165,8 +165,11 @@ def run(ctx):
     binp = e4.build_harness(ctx, "e4c15")
     if binp and ctx.replay_in:
         broken += run_replay(ctx, binp, os.path.abspath(ctx.replay_in), "replay")
-        for l in e4.read_lines(os.path.join(ctx.work, "replay.impl")):
-            print("impl: " + l[:400])
+        ml = e4.model_lines(ctx, os.path.join(ctx.work, "replay.ops"))
+        for k, l in enumerate(e4.read_lines(os.path.join(ctx.work, "replay.impl"))):
+            print("op   : " + e4.read_lines(os.path.join(ctx.work, "replay.ops"))[k][:400])
+            print("impl : " + l[:400])
+            print("model: " + (ml[k][:400] if k < len(ml) else "<missing>"))
     elif binp:
         # 1. fixed findings are replayed and must pass; other corpus entries likewise
         for f in sorted(glob.glob(os.path.join(ROOT, "corpus", "C15", "fixed", "*.ops")) +
